@@ -3,6 +3,7 @@ import OV.Lemmas.Index
 import OV.Lemmas.IndexPlan
 import OV.Lemmas.IndexGather
 import OV.Lemmas.IndexComplete
+import OV.Lemmas.IndexZip
 /-!
 # C11 — tensor indexing and slicing mean what they mean in NumPy
 
@@ -533,12 +534,14 @@ theorem eager_axis_refines_numpy (c : Comp) (srcs : List Nat) (a : AxisMap)
         rw [slice_list_eager_eq_numpy srcs _ _ _ hv] at h
         exact h
 
-/-- **Eager mode computes NumPy's per-axis maps** (at most one 1-D index, wherever it stands). -/
+/-- **Eager mode computes NumPy's per-axis maps** — for *every* expression, any number of 1-D indices
+wherever they stand, **no hypothesis** (the 1-D Gathers run in ascending axis order; as each keeps its
+axis the order does not matter: `gather_chain_axiswise_fwd`).  What this does not say is how NumPy
+lays the axes out (`numpyIndexT`: one 1-D index; `numpyIndexZ`: any number, zipped). -/
 theorem eager_index_axes (comps : List Comp) (shape : List Nat) (r : View)
-    (hvec : (comps.filter Comp.isVec).length ≤ 1)
     (h : eagerIndex comps shape = .ok r) :
     comps.length ≤ shape.length ∧ axiswise numpyAxis comps shape = .ok r := by
-  obtain ⟨hlen, F, hF, hax⟩ := eager_index_axiswise comps shape r hvec h
+  obtain ⟨hlen, F, hF, hax⟩ := eager_index_axiswise comps shape r h
   refine ⟨hlen, ?_⟩
   refine axiswise_mono F numpyAxis comps shape r ?_ hF
   intro j c d a hc hd hg
@@ -561,7 +564,7 @@ theorem eager_index_correct_partial (comps : List Comp) (shape : List Nat) (r : 
     (hvec : (comps.filter Comp.isVec).length ≤ 1)
     (hnt : needsTranspose comps = false)
     (h : eagerIndex comps shape = .ok r) : numpyIndex comps shape = .ok r := by
-  obtain ⟨hlen, hax⟩ := eager_index_axes comps shape r hvec h
+  obtain ⟨hlen, hax⟩ := eager_index_axes comps shape r h
   exact numpyIndex_of_axiswise comps shape r hvec hnt hlen hax
 
 example : eagerIndex [.int (-2), .slice (.const 1) .none .none] [3, 4] = .ok [.drop 1, .pick [1, 2, 3]] := by
@@ -855,7 +858,7 @@ theorem eager_index_iff_numpyT (comps : List Comp) (shape : List Nat) (r : View)
     eagerIndex comps shape = .ok r ↔ numpyIndexT comps shape = .ok ⟨r, frontOf comps⟩ := by
   constructor
   · intro h
-    obtain ⟨hlen, hax⟩ := eager_index_axes comps shape r hvec h
+    obtain ⟨hlen, hax⟩ := eager_index_axes comps shape r h
     unfold numpyIndexT
     rw [if_neg (by omega), if_neg (by omega), hax]
     rfl
@@ -912,7 +915,7 @@ theorem graph_eq_eager_partial (comps : List Comp) (shape : List Nat) (r r' : Vi
     (hD22 : ∀ (j d : Nat) (lo hi st : Bnd), comps[j]? = some (.slice lo hi st) → shape[j]? = some d →
         (st.val?).getD 1 < 0 → ∀ x, lo.val? = some x → -(d : Int) ≤ x)
     (hg : graphIndex comps shape = .ok r) (he : eagerIndex comps shape = .ok r') : r = r' := by
-  have hlen : comps.length ≤ shape.length := (eager_index_axiswise comps shape r' hvec he).1
+  have hlen : comps.length ≤ shape.length := (eager_index_axiswise comps shape r' he).1
   have h1 := graph_index_correct_partial comps shape r hvec hnt hlen hdims hD22 hg
   have h2 := eager_index_correct_partial comps shape r' hvec hnt he
   rw [h1] at h2
@@ -1023,5 +1026,206 @@ theorem all_full_correct (n : Nat) (shape : List Nat) (hn : n ≤ shape.length) 
     simp only [Bool.false_eq_true, if_false]
     exact axiswise_all_skip _ shape (by simpa using hn)
       (fun c hc => by rw [List.eq_of_mem_replicate hc]; rfl)
+
+/-! ### Two or more 1-D indices: NumPy zips them (`numpyIndexZ`), the front ends take the outer product -/
+
+/-- **Finding C11-N4** (open): `X[I, J]` on a 2×3 tensor, `I = [0, 1]`, `J = [1, 0]`.  Both front ends
+run one Gather per index, which selects independently on each axis (the 2×2 outer product
+`X[[0,1]][:, [1,0]]`); NumPy broadcasts the two indices against each other and zips them
+(`[X[0,1], X[1,0]]`, shape `[2]`).  With lengths that do not broadcast (`[0,1]` against `[1,0,2]`)
+NumPy raises IndexError and the front ends still return a tensor.  Replayed on the real code by the
+check. -/
+theorem index_zip_witness :
+    graphIndex [.tVec [0, 1], .tVec [1, 0]] [2, 3] = .ok [.pick [0, 1], .pick [1, 0]] ∧
+    eagerIndex [.tVec [0, 1], .tVec [1, 0]] [2, 3] = .ok [.pick [0, 1], .pick [1, 0]] ∧
+    numpyIndexZ [.tVec [0, 1], .tVec [1, 0]] [2, 3] = .ok ⟨[.zip [0, 1], .zip [1, 0]], false⟩ ∧
+    (ZRes.mk [.zip [0, 1], .zip [1, 0]] false).shape = [2] ∧
+    View.shape [.pick [0, 1], .pick [1, 0]] = [2, 2] ∧
+    graphIndex [.tVec [0, 1], .tVec [1, 0, 2]] [2, 3] = .ok [.pick [0, 1], .pick [1, 0, 2]] ∧
+    eagerIndex [.tVec [0, 1], .tVec [1, 0, 2]] [2, 3] = .ok [.pick [0, 1], .pick [1, 0, 2]] ∧
+    numpyIndexZ [.tVec [0, 1], .tVec [1, 0, 2]] [2, 3] = .error .indexError := by decide
+
+/-- **The converter, any number of 1-D indices (of one common length)**: if the graph returns a
+tensor, its view is exactly NumPy's per-axis maps (`unzip`) — what NumPy does in addition is to read
+the axes of the 1-D indices *together* (one output axis, `zmark`) and, when the advanced indices are
+split by a slice, to put that axis first (`moveFront`).  This extends
+`graph_index_correct_upto_front_partial` from at most one 1-D index to every expression; the
+hypothesis on the lengths only excludes NumPy's stretching of length-1 indices and is vacuous when
+there is at most one 1-D index. -/
+theorem graph_index_correct_upto_zip_partial (comps : List Comp) (shape : List Nat) (r : View) (n : Nat)
+    (hn : ∀ c ∈ comps, ∀ vs, c = .tVec vs → vs.length = n)
+    (hlen : comps.length ≤ shape.length)
+    (hdims : ∀ d ∈ shape, (d : Int) < maxint)
+    (hD22 : ∀ (j d : Nat) (lo hi st : Bnd), comps[j]? = some (.slice lo hi st) → shape[j]? = some d →
+        (st.val?).getD 1 < 0 → ∀ x, lo.val? = some x → -(d : Int) ≤ x)
+    (h : graphIndex comps shape = .ok r) :
+    numpyIndexZ comps shape = .ok ⟨zmark comps r, moveFront comps⟩ ∧ unzip (zmark comps r) = r := by
+  have hax := graph_index_axes_partial comps shape r hlen hdims hD22 h
+  obtain ⟨m, hm, hid⟩ := bcast_equal_lengths comps n hn
+  refine ⟨?_, unzip_zmark comps r⟩
+  unfold numpyIndexZ
+  rw [if_neg (by omega), hm]
+  simp only [hid, hax]
+  rfl
+
+example : graphIndex [.slice (.const 1) .none .none, .tVec [0, 1], .int 0, .tVec [1, 0]] [3, 2, 2, 3]
+      = .ok [.pick [1, 2], .pick [0, 1], .drop 0, .pick [1, 0]] ∧
+    numpyIndexZ [.slice (.const 1) .none .none, .tVec [0, 1], .int 0, .tVec [1, 0]] [3, 2, 2, 3]
+      = .ok ⟨[.pick [1, 2], .zip [0, 1], .drop 0, .zip [1, 0]], false⟩ ∧
+    (ZRes.mk [.pick [1, 2], .zip [0, 1], .drop 0, .zip [1, 0]] false).shape = [2, 2] := by decide
+
+/-- **With two or more 1-D indices the translated graph never returns NumPy's tensor** (no other
+hypothesis: any expression, any shape, any lengths and values of the indices).  Whenever the graph
+returns a tensor and NumPy returns one, the graph's tensor has `k - 1` more axes than NumPy's, `k`
+the number of 1-D indices: each Gather keeps an axis of its own where NumPy shares one.  (And when
+NumPy raises — lengths that do not broadcast, `index_zip_witness` — a returned tensor is wrong
+anyway.)  So on this whole class the property fails as soon as the graph runs: finding C11-N4. -/
+theorem graph_multi_vec_never_numpy (comps : List Comp) (shape : List Nat) (r : View) (z : ZRes)
+    (hk : 2 ≤ (comps.filter Comp.isVec).length)
+    (hg : graphIndex comps shape = .ok r) (hz : numpyIndexZ comps shape = .ok z) :
+    (View.shape r).length = z.shape.length + ((comps.filter Comp.isVec).length - 1) ∧
+    View.shape r ≠ z.shape := by
+  -- NumPy's side
+  unfold numpyIndexZ at hz
+  by_cases h1 : comps.length > shape.length
+  · rw [if_pos h1] at hz; cases hz
+  rw [if_neg h1] at hz
+  cases hb : bcastLen (comps.filterMap Comp.vecLen?) with
+  | none => rw [hb] at hz; cases hz
+  | some n =>
+    rw [hb] at hz
+    cases hax : axiswise numpyAxis (comps.map (Comp.stretch n)) shape with
+    | error e => simp [hax, bind, Except.bind] at hz
+    | ok v =>
+      simp only [hax, bind, Except.bind, pure, Except.pure, Except.ok.injEq] at hz
+      subst hz
+      obtain ⟨hc1, hc2⟩ := zmark_counts n comps shape v hax
+      have hany : comps.any Comp.isVec = true := any_of_filter_length_pos _ _ (by omega)
+      have hzl := ZRes.shape_length ⟨zmark comps v, moveFront comps⟩
+      simp only [hc2, hany, if_true] at hzl
+      -- the graph's side: one axis per component, scalar-indexed ones removed
+      have hr : (View.shape r).length + (comps.filter Comp.isEagerScalar).length = shape.length := by
+        cases huse : useSlice comps with
+        | false =>
+          exact axiswise_shape_count numpyAxis numpyAxis_isPick comps shape r
+            (graph_gatherpath_axiswise comps shape r (by omega) huse hg)
+        | true =>
+          refine axiswise_shape_count _ ?_ comps shape r
+            (graph_slicepath_axiswise comps shape r (by omega) huse hg)
+          intro c srcs a ha
+          simp only [withGather] at ha
+          by_cases hkk : (c.kind == Kind.nonScalar) = true
+          · simp only [hkk, if_true] at ha
+            exact numpyAxis_isPick c srcs a ha
+          · simp only [hkk, Bool.false_eq_true, if_false] at ha
+            rw [graphPre_isPick c srcs a ha]
+            cases c with
+            | full => rfl
+            | int i => rfl
+            | tScalar i => exact absurd rfl hkk
+            | tVec vs => exact absurd rfl hkk
+            | slice lo hi st => cases lo <;> cases hi <;> cases st <;> rfl
+      have hlen : (View.shape r).length = (ZRes.mk (zmark comps v) (moveFront comps)).shape.length
+          + ((comps.filter Comp.isVec).length - 1) := by omega
+      refine ⟨hlen, ?_⟩
+      intro heq
+      rw [heq] at hlen
+      omega
+
+example : 2 ≤ ([Comp.tVec [0, 1], .full, .tVec [1]].filter Comp.isVec).length ∧
+    graphIndex [.tVec [0, 1], .full, .tVec [1]] [2, 3, 4] = .ok [.pick [0, 1], .pick [0, 1, 2], .pick [1]] ∧
+    numpyIndexZ [.tVec [0, 1], .full, .tVec [1]] [2, 3, 4]
+      = .ok ⟨[.zip [0, 1], .pick [0, 1, 2], .zip [1, 1]], false⟩ ∧
+    (ZRes.mk [.zip [0, 1], .pick [0, 1, 2], .zip [1, 1]] false).shape = [2, 3] := by decide
+
+/-- **Eager mode, any number of 1-D indices (of one common length)**: `Tensor.__getitem__`'s view is
+exactly NumPy's per-axis maps, un-zipped — no other hypothesis (eager mode has no D22, no size bound, and
+refuses surplus components itself). -/
+theorem eager_index_correct_upto_zip (comps : List Comp) (shape : List Nat) (r : View) (n : Nat)
+    (hn : ∀ c ∈ comps, ∀ vs, c = .tVec vs → vs.length = n)
+    (h : eagerIndex comps shape = .ok r) :
+    numpyIndexZ comps shape = .ok ⟨zmark comps r, moveFront comps⟩ ∧ unzip (zmark comps r) = r := by
+  obtain ⟨hlen, hax⟩ := eager_index_axes comps shape r h
+  obtain ⟨m, hm, hid⟩ := bcast_equal_lengths comps n hn
+  refine ⟨?_, unzip_zmark comps r⟩
+  unfold numpyIndexZ
+  rw [if_neg (by omega), hm]
+  simp only [hid, hax]
+  rfl
+
+example : eagerIndex [.slice (.const 1) .none .none, .tVec [0, 1], .int 0, .tVec [1, 0]] [3, 2, 2, 3]
+      = .ok [.pick [1, 2], .pick [0, 1], .drop 0, .pick [1, 0]] := by decide
+
+/-- **With two or more 1-D indices eager mode never returns NumPy's tensor** (no other hypothesis):
+whenever `Tensor.__getitem__` and NumPy both return a tensor, eager mode's has `k - 1` more axes, `k`
+the number of 1-D indices — the eager half of finding C11-N4, for the whole class. -/
+theorem eager_multi_vec_never_numpy (comps : List Comp) (shape : List Nat) (r : View) (z : ZRes)
+    (hk : 2 ≤ (comps.filter Comp.isVec).length)
+    (he : eagerIndex comps shape = .ok r) (hz : numpyIndexZ comps shape = .ok z) :
+    (View.shape r).length = z.shape.length + ((comps.filter Comp.isVec).length - 1) ∧
+    View.shape r ≠ z.shape := by
+  obtain ⟨_, haxr⟩ := eager_index_axes comps shape r he
+  have hr := axiswise_shape_count numpyAxis numpyAxis_isPick comps shape r haxr
+  unfold numpyIndexZ at hz
+  by_cases h1 : comps.length > shape.length
+  · rw [if_pos h1] at hz; cases hz
+  rw [if_neg h1] at hz
+  cases hb : bcastLen (comps.filterMap Comp.vecLen?) with
+  | none => rw [hb] at hz; cases hz
+  | some n =>
+    rw [hb] at hz
+    cases hax : axiswise numpyAxis (comps.map (Comp.stretch n)) shape with
+    | error e => simp [hax, bind, Except.bind] at hz
+    | ok v =>
+      simp only [hax, bind, Except.bind, pure, Except.pure, Except.ok.injEq] at hz
+      subst hz
+      obtain ⟨hc1, hc2⟩ := zmark_counts n comps shape v hax
+      have hany : comps.any Comp.isVec = true := any_of_filter_length_pos _ _ (by omega)
+      have hzl := ZRes.shape_length ⟨zmark comps v, moveFront comps⟩
+      simp only [hc2, hany, if_true] at hzl
+      have hlen : (View.shape r).length = (ZRes.mk (zmark comps v) (moveFront comps)).shape.length
+          + ((comps.filter Comp.isVec).length - 1) := by omega
+      refine ⟨hlen, ?_⟩
+      intro heq
+      rw [heq] at hlen
+      omega
+
+example : 2 ≤ ([Comp.int 1, .tVec [0, 1], .tVec [1, 0, 2]].filter Comp.isVec).length ∧
+    eagerIndex [.int 1, .tVec [0, 1], .tVec [2]] [2, 3, 4] = .ok [.drop 1, .pick [0, 1], .pick [2]] ∧
+    numpyIndexZ [.int 1, .tVec [0, 1], .tVec [2]] [2, 3, 4] = .ok ⟨[.drop 1, .zip [0, 1], .zip [2, 2]], false⟩ ∧
+    (ZRes.mk [.drop 1, .zip [0, 1], .zip [2, 2]] false).shape = [2] := by decide
+
+/-- **The zip model extends the earlier NumPy model**: wherever `numpyIndexT` answers (at most one 1-D
+index) `numpyIndexZ` gives the same per-axis maps — the axis of the 1-D index, if any, marked as the
+(only) zipped one — and moves that axis first exactly when `numpyIndexT` does.  So the statements against
+`numpyIndexT` and those against `numpyIndexZ` speak about one and the same NumPy. -/
+theorem numpyIndexZ_of_numpyIndexT (comps : List Comp) (shape : List Nat) (n : NView)
+    (h : numpyIndexT comps shape = .ok n) :
+    numpyIndexZ comps shape = .ok ⟨zmark comps n.view, n.front.isSome⟩ := by
+  unfold numpyIndexT at h
+  by_cases h1 : comps.length > shape.length
+  · rw [if_pos h1] at h; cases h
+  rw [if_neg h1] at h
+  by_cases h2 : (comps.filter Comp.isVec).length > 1
+  · rw [if_pos h2] at h; cases h
+  rw [if_neg h2] at h
+  cases hax : axiswise numpyAxis comps shape with
+  | error e => rw [hax] at h; cases h
+  | ok v =>
+    rw [hax] at h
+    have hn : n = ⟨v, frontOf comps⟩ := by cases h; rfl
+    subst hn
+    obtain ⟨n0, hn0⟩ := all_vec_lengths_of_le_one comps (by omega)
+    obtain ⟨m, hm, hid⟩ := bcast_equal_lengths comps n0 hn0
+    unfold numpyIndexZ
+    rw [if_neg h1, hm]
+    simp only [hid, hax, moveFront_eq_frontOf comps (by omega)]
+    rfl
+
+example : numpyIndexT [.int 0, .full, .tVec [1, 0]] [2, 3, 4]
+      = .ok ⟨[.drop 0, .pick [0, 1, 2], .pick [1, 0]], some 2⟩ ∧
+    numpyIndexZ [.int 0, .full, .tVec [1, 0]] [2, 3, 4]
+      = .ok ⟨[.drop 0, .pick [0, 1, 2], .zip [1, 0]], true⟩ ∧
+    (ZRes.mk [.drop 0, .pick [0, 1, 2], .zip [1, 0]] true).shape = [2, 3] := by decide
 
 end OV.Props.C11
